@@ -476,10 +476,40 @@ def clock_taint(prog: Program, rep: Report, rule: str) -> None:
             return [st.target]
         return []
 
+    from ..program import bind_args
+
+    fquals = {f.qual for f in funcs}
+    handed_on: set[int] = set()  # id of argument expressions judged in the callee
+
+    def repo_callee(fi, call):
+        try:
+            ts = prog.resolve_call(fi, call)
+        except AnalysisError:
+            return None
+        return ts[0] if len(ts) == 1 and ts[0].qual in fquals and ts[0].name != "__init__" else None
+
     changed = True
     while changed:
         changed = False
         for fi in funcs:
+            # a tainted argument taints the parameter of the repository function it is passed to
+            in_log = {id(y) for l in walk_no_nested(fi.node) if _is_log_call(l) for y in ast.walk(l)}
+            for c in walk_no_nested(fi.node):
+                if isinstance(c, ast.Call) and id(c) not in in_log and any(tainted_expr(a, fi) for a in list(c.args) + [k.value for k in c.keywords]):
+                    # (a call whose result only feeds a log message is judged at the log call, as before)
+                    g = repo_callee(fi, c)
+                    if g is None:
+                        continue
+                    try:
+                        bound = bind_args(g, c)
+                    except Exception:  # noqa: BLE001
+                        continue
+                    for pname, expr in bound.items():
+                        if any(expr is a for a in list(c.args) + [k.value for k in c.keywords]) and tainted_expr(expr, fi):
+                            handed_on.add(id(expr))
+                            if pname not in tloc[g.qual]:
+                                tloc[g.qual].add(pname)
+                                changed = True
             for st in walk_no_nested(fi.node):
                 if isinstance(st, (ast.Assign, ast.AugAssign, ast.AnnAssign)) and st.value is not None and tainted_expr(st.value, fi):
                     for t in targets_of(st):
@@ -517,6 +547,8 @@ def clock_taint(prog: Program, rep: Report, rule: str) -> None:
             ok, why = False, "value used in " + type(stmt).__name__
             if any(_is_log_call(u) for u in up):
                 ok = True
+            elif id(x) in handed_on or any(id(u) in handed_on for u in up):
+                ok = True  # an argument of a repository function: the parameter is tainted and judged there
             elif isinstance(stmt, (ast.Assign, ast.AugAssign, ast.AnnAssign)):
                 tg = [el for t in targets_of(stmt) for el in (t.elts if isinstance(t, (ast.Tuple, ast.List)) else [t])]
                 ok = all(isinstance(el, ast.Name) or (isinstance(el, ast.Attribute) and isinstance(el.value, ast.Name) and el.value.id == "self") or "history" in unparse(el) for el in tg)
@@ -657,6 +689,10 @@ def run(prog: Program, rep: Report, tier: str) -> None:
     rep.rule("R14.4", "per-step modules read the clock through step/dt only", 7)
     rep.rule("R14.6", "per-particle attributes of the tracker are recomputed in every step before they are read", 3)
     step_attribute_freshness(prog, rep, "R14.6", roles=("tracker", "forcing"))
+    rep.rule("R14.7", "per-particle arrays paired element by element (arithmetic, masked stores, compiled kernels) are indexed by the same particle list: no particle is given another particle's level, metric or depth", 1)
+    from . import align
+
+    align.report(prog, rep, "R14.7", "a particle's update uses only its own rows")
     rep.rule("R14.5", "the gridded forcing fields evolve independently of the particle list (no control or data dependence)", 5)
     cache_coherence(prog, rep)
     kernel_independence(prog, rep)
@@ -673,6 +709,10 @@ MO = "ladim/model.py"
 ON = "ladim/out_netcdf.py"
 RL = "ladim/release.py"
 AUDIT = [
+    Mut("advect-compressed-positions", TR, "            Uadv, Vadv = self.advect(X, Y, Z, force)\n", "            act = state.active\n            Uadv, Vadv = np.zeros_like(X), np.zeros_like(Y)\n            Uadv[act], Vadv[act] = self.advect(X[act], Y[act], Z[act], force)\n", rule="R14.7"),
+    Mut("depth-of-live-subset", TR, "            h = grid.depth(X, Y)\n", "            h = grid.depth(X[state.alive], Y[state.alive])\n", rule="R14.7"),
+    Mut("seabed-index-array", TR, "                below_seabed = Z > h\n", "                below_seabed = np.flatnonzero(Z > h)\n", expect="silent", rule="R14.7"),
+    Mut("reflect-live-subset-consistently", TR, "                below_seabed = Z > h\n                Z[below_seabed] = 2 * h[below_seabed] - Z[below_seabed]\n", "                live = state.alive\n                Zl, hl = Z[live], h[live]\n                deep = Zl > hl\n                Zl[deep] = 2 * hl[deep] - Zl[deep]\n                Z[live] = Zl\n", expect="silent", rule="R14.7"),
     Mut("tri-neighbour-level", RO, "        k, a = K[n], A[n]\n", "        k, a = K[n - 1], A[n]\n", rule="R14.2"),
     Mut("rkstep-first-velocity", TR, "        Xp[i] = X[i] + frac * U[i] * dtdx[i]", "        Xp[i] = X[i] + frac * U[0] * dtdx[i]", rule="R14.2"),
     Mut("tracker-demean", TR, "            U += Uadv\n", "            U += Uadv - Uadv.mean()\n", rule="R14.2"),
